@@ -1,4 +1,5 @@
 #include "fb_common.h"
+#include <sys/socket.h>
 
 fb_slot_t fb_slots[FB_MAX_SLOTS];
 _Atomic int fb_nslots;
@@ -133,4 +134,27 @@ void fb_slot_release(fb_slot_t* s) {
 void fb_join_all(fb_slot_t** s, int n) {
   int i;
   for (i = 0; i < n; ++i) fiber_join(s[i]->fiber, NULL);
+}
+
+// A legitimate history that leaves traces in the calling fiber: its blocking read is ended by another fiber closing the
+// descriptor (the runtime reports that through per-fiber scratch state). Whatever is left behind must not influence the fiber's
+// next blocking operation, whichever primitive that is.
+static void* fb_closer_fn(void* a) {
+  const int fd = (int)(intptr_t)a;
+  int i;
+  for (i = 0; i < 20; ++i) fiber_yield();
+  close(fd);
+  return NULL;
+}
+void fb_interrupted_read(fb_slot_t* s) {
+  int sv[2];
+  if (socketpair(AF_UNIX, SOCK_STREAM, 0, sv)) return;
+  fiber_t* c = fiber_create(FB_STACK / 2, fb_closer_fn, (void*)(intptr_t)sv[0]);
+  char b[4];
+  ssize_t r = 0;
+  FB_BLOCKING(s, "C08 read (ended by close in another fiber)", r = read(sv[0], b, sizeof(b)));
+  (void)r;
+  if (c) fiber_join(c, NULL);
+  close(sv[1]);
+  vp_count("fiber_history_read_interrupted_by_close", 1);
 }
